@@ -112,7 +112,7 @@ def r18_2(repo: Repo) -> RuleResult:
         for n in walk_no_nested(f.node):
             if isinstance(n, ast.Assign) and isinstance(n.value, ast.Call) and norm(n.value.func) in ("arr_union", "arr_intersect") \
                     and isinstance(n.targets[0], ast.Name):
-                results[n.targets[0].id] = {norm(a) for a in n.value.args}
+                results[n.targets[0].id] = {norm(a) for a in n.value.args} | {norm(k.value) for k in n.value.keywords}
         for rname, inds in results.items():
             stores = [n for n in walk_no_nested(f.node) if isinstance(n, ast.Assign) and isinstance(n.targets[0], ast.Subscript)
                       and norm(n.targets[0].value) == rname]
